@@ -47,12 +47,12 @@ structure Routed where
   logged : Nat := 0
   deriving DecidableEq, Repr, Inhabited
 
-/-- `for r in self._rules.values(): r.match(m)`. -/
+/-- `for r in self._rules.values(): r.match(m)` (`Rule.match` of the tree under test: `Rule.matchGen`). -/
 def routeList (raises : Nat → Cb → Bool) (m : Msg) : List Entry → Routed
   | [] => {}
   | e :: t =>
     let rest := routeList raises m t
-    match e.rule.match m with
+    match e.rule.matchGen m with
     | .skip => rest
     | .err => { rest with logged := rest.logged + 1 }
     | .call =>
